@@ -23,6 +23,14 @@ FINISH = dict(
 )
 
 
+def _names(ast):
+    for n in ast:
+        if n["k"] == "fld":
+            yield n["n"]
+        elif n["k"] in ("grp", "opt"):
+            yield from _names(n["body"])
+
+
 def idbytes(ident):
     return 3 if ident.startswith("4076") else 2
 
@@ -43,6 +51,23 @@ def run(tier, rep):
     corp = de.Corpus(rep)
     cases = gen_messages.corpus(corp.bundle, "c06", per_ident=1 if quick else 3)
     rnd = rng("c06-cuts")
+    # text-bearing types: strings with NUL code units at the start / in the middle / as padding
+    textids = [i for i, ast in corp.bundle["defs"].items()
+               if any(corp.bundle["fields"].get(n, {}).get("t") in ("STR", "CHA") for n in _names(ast))]
+    for ident in sorted(textids):
+        for pat in ("first", "middle", "pad"):
+            pl, enc = gen_messages.build(ident, corp.bundle, rnd, values="random", count=6)
+            if pl is None:
+                continue
+            b = bytearray(pl)
+            chars = [(off, w) for name, idx, off, w in enc.layout if corp.bundle["fields"][name]["t"] in ("STR", "CHA") and w == 8 and off % 8 == 0]
+            if not chars:
+                chars = [(off, w) for name, idx, off, w in enc.layout if corp.bundle["fields"][name]["t"] in ("STR", "CHA")]
+            sel = chars[:1] if pat == "first" else chars[len(chars) // 2: len(chars) // 2 + 1] if pat == "middle" else chars[len(chars) // 2:]
+            v = int.from_bytes(pl, "big")
+            for off, w in sel:
+                v &= ~(((1 << w) - 1) << (len(pl) * 8 - off - w))
+            cases.append((ident, "nul-" + pat, v.to_bytes(len(pl), "big"), enc))
     ncut = 0
     for ident, pn, pl, enc in cases:
         rid, r, _ = corp.add(pl, 1, lbl=False, ident=ident, profile=pn, kind="complete", full=len(pl))
